@@ -22,10 +22,14 @@ def run(tier, seed):
     custom = {':--cust': 'p, div > span', ':--c2': ':is(a, :--cust):not(.x)'}
     scs = []
     for profile in ('core', 'forms', 'langdir', 'ns', 'contains'):
-        for sc in campaign.build(rnd, profile, n // 5 + 1, 0):
+        for sc in campaign.build(rnd, profile, (n // 5 + 1) * (2 if profile == 'ns' else 1), 0):
             top = sc.top
             pools = gen_selectors.pools_from_soup(top)
             nsmap = rnd.choice(campaign.NSMAPS) if profile == 'ns' else rnd.choice([None, None, {'': gen_selectors.sv.css_match.NS_XHTML}])
+            used_ns = sorted({e.namespace for e in top.find_all(True) if getattr(e, 'namespace', None)})
+            if profile == 'ns' and used_ns and rnd.random() < 0.6:
+                # prefixes bound to namespaces that occur in this tree, so prefixed alternatives do match something
+                nsmap = {f'n{i}': u for i, u in enumerate(rnd.sample(used_ns, min(2, len(used_ns))))}
             prefixes = [k for k in (nsmap or {}) if k]
             sg = gen_selectors.SGen(rnd, feats=('core', 'state', 'lang', 'dir', 'contains', 'misc') + (('ns',) if prefixes else ()),
                                     prefixes=prefixes, **pools)
